@@ -29,7 +29,14 @@ var (
 	errCreateNewDirectory = errors.New("failed to create new directory")
 	errDAGFileEmpty       = errors.New("dagFile is empty")
 
-	rTimestamp = regexp.MustCompile(`2\d{7}.\d{2}:\d{2}:\d{2}`)
+	// rTimestamp extracts the start time from the name of a status file
+	// (<dag name>.<date>.<time>.<ms>.<request id>[_c].dat). It is anchored at
+	// the end of the name because the DAG name may look like a timestamp too,
+	// and it includes the milliseconds: runs started within the same second
+	// must still be ordered by their start time.
+	rTimestamp = regexp.MustCompile(
+		`(2\d{7}.\d{2}:\d{2}:\d{2}(?:\.\d{3})?)(?:\.[^./]*)?(?:_c)?\.dat$`,
+	)
 )
 
 const (
@@ -365,8 +372,13 @@ func filterLatest(files []string, n int) []string {
 	return files[:n]
 }
 
+// timestamp returns the start time encoded in the name of a status file.
 func timestamp(file string) string {
-	return rTimestamp.FindString(file)
+	m := rTimestamp.FindStringSubmatch(file)
+	if m == nil {
+		return ""
+	}
+	return m[1]
 }
 
 func readLineFrom(f *os.File, offset int64) ([]byte, error) {
